@@ -123,6 +123,8 @@ func opTermOf(op stk.Operator) string {
 		return fmt.Sprintf("(Some (OpBuiltin %d%%N))", int(o))
 	case userOp:
 		return fmt.Sprintf("(Some (OpUser %s %s))", revBytes(o.text), revBytes(o.ctx))
+	case sliceOp:
+		return fmt.Sprintf("(Some (OpUser %s %s))", revBytes(o[0]), revBytes(o[1]))
 	}
 	return "(Some (OpUser (B \"?\") (B \"?\")))"
 }
